@@ -63,6 +63,14 @@ Fixpoint chunks_aux {A} (fuel c : nat) (l : list A) : list (list A) :=
   end.
 Definition chunks {A} (c : nat) (l : list A) : list (list A) := chunks_aux (S (length l)) c l.
 
+(* l[j] = f(l[j]) (nothing happens when j is out of range) *)
+Fixpoint upd {A} (j : nat) (f : A -> A) (l : list A) : list A :=
+  match l, j with
+  | [], _ => []
+  | x :: r, O => f x :: r
+  | x :: r, S k => x :: upd k f r
+  end.
+
 Section Model.
 Context {T : Type} (o : NumOps T).
 
@@ -171,6 +179,38 @@ Definition separable (fs : list (point -> T)) (xs : list point) : T :=
   prodl (map2 (fun f x => f x) fs xs).
 Definition single_integral (g : grid) (f : point -> T) : T := grid_integrate g (map f (gpts g)).
 
+(* ------------------------------------------------------------------ histories on one object
+   The MultiDomainGrid keeps references to its component grids and nothing else: every observation reads the
+   component grids as they are at the time of the call.  State changes between calls:
+     g.weights = w   (Grid.weights setter: same shape required; also the in-place forms g.weights[...] = w, g.weights *= a)
+     g.points = p    (Grid.points setter: same shape required)
+     md.grid_list[j] = g'                                                                                        *)
+Inductive op :=
+| SetWeights (j : nat) (w : list T)
+| SetPoints (j : nat) (p : list point)
+| ReplaceGrid (j : nat) (g : grid).
+
+Definition apply_op (m : mdgrid) (a : op) : mdgrid :=
+  match a with
+  | SetWeights j w => MD (upd j (fun g => Grid (gpts g) w) (grid_list m)) (ndom m)
+  | SetPoints j p => MD (upd j (fun g => Grid p (gwts g)) (grid_list m)) (ndom m)
+  | ReplaceGrid j g => MD (upd j (fun _ => g) (grid_list m)) (ndom m)
+  end.
+Definition run_history (m : mdgrid) (ops : list op) : mdgrid := fold_left apply_op ops m.
+
+(* what the setters / a replacement by a Grid object guarantee *)
+Definition op_ok (m : mdgrid) (a : op) : Prop :=
+  match a with
+  | SetWeights j w => exists g, nth_error (grid_list m) j = Some g /\ length w = length (gwts g)
+  | SetPoints j p => exists g, nth_error (grid_list m) j = Some g /\ length p = length (gpts g)
+  | ReplaceGrid j g => j < length (grid_list m) /\ wf_grid g
+  end.
+Fixpoint history_ok (m : mdgrid) (ops : list op) : Prop :=
+  match ops with
+  | [] => True
+  | a :: r => op_ok m a /\ history_ok (apply_op m a) r
+  end.
+
 (* ------------------------------------------------------------------ integrands as data *)
 (* coefficient * prod_j coordinate(domain d_j, component c_j) ^ e_j *)
 Definition monomial := (T * list (nat * nat * nat))%type.
@@ -203,3 +243,10 @@ Arguments md_size {T} _.
 Arguments md_points {T} _.
 Arguments domains {T} _.
 Arguments empty_grid {T}.
+Arguments SetWeights {T} _ _.
+Arguments SetPoints {T} _ _.
+Arguments ReplaceGrid {T} _ _.
+Arguments apply_op {T} _ _.
+Arguments run_history {T} _ _.
+Arguments op_ok {T} _ _.
+Arguments history_ok {T} _ _.
